@@ -352,11 +352,7 @@ def positive_fixture(run_, pkg):
             def helper(self):
                 self.vertices[0].pose = None
     ''')
-    tree = ast.parse(src)
-    fake = object.__new__(Package)
-    fake.repo = fake.root = "<fixture>"
-    fake.units, fake.classes, fake.funcs, fake.func_module, fake.module_consts, fake.module_imports = {}, {}, {}, {}, {}, {}
-    fake._index("fixture.py", tree)
+    fake = Package.from_source("fixture.py", src)
     an = Analysis(fake)
     evs = an.effects(fake.own_method("BaseEdge", "calc_error"))
     kinds = {(e.kind, path_str(e.path)) for e in evs}
